@@ -4,6 +4,8 @@ import (
 	"bytes"
 	"html"
 	"strings"
+	"unicode"
+	"unicode/utf8"
 
 	"github.com/textwire/textwire/v2/ast"
 	"github.com/textwire/textwire/v2/ctx"
@@ -553,8 +555,9 @@ func (e *Evaluator) evalObjectIndexExp(
 		return e.newError(node, fail.ErrPropertyNotFound, idx, object.OBJ_OBJ)
 	}
 
-	// make first letter lowercase on idx
-	idxUpper := strings.ToUpper(idx[:1]) + idx[1:]
+	// make first letter uppercase on idx
+	first, size := utf8.DecodeRuneInString(idx)
+	idxUpper := string(unicode.ToUpper(first)) + idx[size:]
 
 	if pair, ok = objObj.Pairs[idxUpper]; !ok {
 		return e.newError(node, fail.ErrPropertyNotFound, idx, object.OBJ_OBJ)
